@@ -151,7 +151,7 @@ impl Cfg {
 }
 
 /// counting wrapper around the dominance checker
-struct MonDom<'a, S> { inner: &'a (dyn DominanceChecker<State = S> + Send + Sync), queries: std::sync::atomic::AtomicU64, dominated: std::sync::atomic::AtomicU64 }
+struct MonDom<'a, S> { inner: &'a (dyn DominanceChecker<State = S> + Send + Sync), queries: std::sync::atomic::AtomicU64, dominated: std::sync::atomic::AtomicU64, restricted_queries: std::sync::atomic::AtomicU64 }
 impl<S: std::fmt::Debug + Send + Sync + 'static> DominanceChecker for MonDom<'_, S> {
     type State = S;
     fn clear_layer(&self, depth: usize) { self.inner.clear_layer(depth) }
@@ -165,6 +165,7 @@ impl<S: std::fmt::Debug + Send + Sync + 'static> DominanceChecker for MonDom<'_,
             eprintln!("  dom query depth={depth} value={value} potential={pot:?} -> dominated={} thr={:?}  [state {:?}]", r.dominated, r.threshold, state);
         }
         self.queries.fetch_add(1, AO::Relaxed);
+        if crate::monitor::IN_RESTRICTED.with(|c| c.get()) { self.restricted_queries.fetch_add(1, AO::Relaxed); }
         if r.dominated { self.dominated.fetch_add(1, AO::Relaxed); }
         r
     }
@@ -214,6 +215,8 @@ pub struct Outcome {
     pub watchdog_deadlock: bool,
     pub dom_queries: u64,
     pub dom_pruned: u64,
+    /// dominance queries issued while the querying thread was inside a restricted compilation
+    pub dom_queries_restricted: u64,
     pub wall: Duration,
     /// (is_exact, value, lb, ub) of the first call when a second call to maximize() was made
     pub first_call: Option<(bool, Option<isize>, isize, isize)>,
@@ -308,7 +311,7 @@ pub fn run_solver<F: Fam>(inst: &Arc<F>, cfg: &Cfg) -> Outcome {
     let empty_dom = EmptyDominanceChecker::<F::S>::default();
     let isolated = !cfg.cache && dom_box.is_none();
     let dom_inner: &(dyn DominanceChecker<State = F::S> + Send + Sync) = match &dom_box { Some(b) => b.as_ref(), None => &empty_dom };
-    let mon_dom = MonDom { inner: dom_inner, queries: Default::default(), dominated: Default::default() };
+    let mon_dom = MonDom { inner: dom_inner, queries: Default::default(), dominated: Default::default(), restricted_queries: Default::default() };
     let dom: &(dyn DominanceChecker<State = F::S> + Send + Sync) = &mon_dom;
     let width = WidthBox(cfg.width, inst.nb_variables());
     let abort = Arc::new(AtomicBool::new(false));
@@ -412,6 +415,7 @@ pub fn run_solver<F: Fam>(inst: &Arc<F>, cfg: &Cfg) -> Outcome {
     out.polls = cutoff.polls.load(AO::SeqCst);
     out.dom_queries = mon_dom.queries.load(AO::Relaxed);
     out.dom_pruned = mon_dom.dominated.load(AO::Relaxed);
+    out.dom_queries_restricted = mon_dom.restricted_queries.load(AO::Relaxed);
     out.cutoff_fired = cutoff.fired.load(AO::SeqCst);
     out.panics = take_panics();
     if fstats.livelock.load(AO::SeqCst) { out.livelock = fstats.livelock_witness.lock().unwrap().clone(); }
